@@ -390,20 +390,23 @@ func (t *genTable[Obj]) RegisterInitializer(txn WriteTxn, name string) func(Writ
 	}
 
 	init.pending = append(init.pending, name)
-	var once sync.Once
 	return func(txn WriteTxn) {
-		once.Do(func() {
-			table := txn.unwrap().tableEntries[t.pos]
-			if !table.locked {
-				panic(fmt.Sprintf("RegisterInitializer/MarkDone: Table %q not locked for writing", t.table))
-			}
-			init := *table.init
-			init.pending = slices.DeleteFunc(
-				slices.Clone(init.pending),
-				func(n string) bool { return n == name },
-			)
-			table.init = &init
-		})
+		table := txn.unwrap().tableEntries[t.pos]
+		if !table.locked {
+			panic(fmt.Sprintf("RegisterInitializer/MarkDone: Table %q not locked for writing", t.table))
+		}
+		// Marking done is idempotent and decided by the state of the given
+		// transaction (not by a once-flag), so that a mark made in a transaction
+		// that was aborted can be repeated.
+		if table.init == nil || !slices.Contains(table.init.pending, name) {
+			return
+		}
+		init := *table.init
+		init.pending = slices.DeleteFunc(
+			slices.Clone(init.pending),
+			func(n string) bool { return n == name },
+		)
+		table.init = &init
 	}
 }
 
